@@ -74,6 +74,9 @@ Inductive case :=
         (pr : option (list (string * option string))) (obs : full_obs)
 (* strings.ToLower on a token *)
 | CLower (input : string) (obs : string)
+(* action.Install with DryRun / DryRunOption / HideSecret: rejected by the hide-secret guard?,
+   was anything stored and created? *)
+| CGuard (f : run_flags) (rejected applied_obs : bool)
 (* kube.Client.Create: Kind of every resource in list order, observed fn start/end events
    in the order they happened, which creates failed *)
 | CBarrier (kinds : list string) (failing : list nat) (evs : list event) (reported_failures : nat).
@@ -192,6 +195,9 @@ Definition case_ok (c : case) : bool :=
       | _, _ => false
       end
   | CLower input obs => String.eqb (go_to_lower input) obs
+  | CGuard f rejected applied_obs =>
+      Bool.eqb (negb (is_dry_run f) && rf_hide_secret f) rejected &&
+      Bool.eqb (match applied f "m" with Some _ => true | None => false end) applied_obs
   | CBarrier kinds failing evs nfail =>
       let fails := fun j => existsb (Nat.eqb j) failing in
       admissible kinds fails evs
